@@ -612,3 +612,44 @@ Definition emitted_eqb (a b : emitted) : bool :=
 (* a request given as an association list from attribute paths to values *)
 Definition req_of (l : list (string * string)) : request :=
   fun p => match assoc p l with Some v => v | None => EmptyString end.
+
+(* ---- the AIP class as a predicate on template STRINGS: an independent reader of the text ---- *)
+(* head { body } tail ; head empty or ending in a slash ; tail empty or starting with one ;
+   body = key or key=sub ; segments are the slash-separated pieces: a star, two stars, or literal text *)
+Definition seg_of_str (x : string) : seg :=
+  if String.eqb x "*" then SStar else if String.eqb x "**" then SDstar else SLit x.
+Definition last_is (c : ascii) (s : string) : bool :=
+  match srev s with String a _ => Ascii.eqb a c | EmptyString => false end.
+Definition aip_parse (s : string) : option tmpl :=
+  match cut_at lbrace s with
+  | None => None
+  | Some (head, rest) =>
+      match cut_at rbrace rest with
+      | None => None
+      | Some (body, tail) =>
+          let pre := if is_empty head then Some []
+                     else if last_is slash head then Some (map seg_of_str (splitc slash (drop_last head))) else None in
+          let post := match tail with
+                      | EmptyString => Some []
+                      | String a tl => if Ascii.eqb a slash then Some (map seg_of_str (splitc slash tl)) else None
+                      end in
+          match pre, post with
+          | Some pre, Some post =>
+              match cut_at eqc body with
+              | None => Some {| t_pre := pre; t_key := body; t_short := true; t_sub := [SStar]; t_post := post |}
+              | Some (key, subs) =>
+                  Some {| t_pre := pre; t_key := key; t_short := false;
+                          t_sub := map seg_of_str (splitc slash subs); t_post := post |}
+              end
+          | _, _ => None
+          end
+      end
+  end.
+Definition aip_class_str (s : string) : bool :=
+  match aip_parse s with Some t => aip_class t | None => false end.
+
+Definition seg_eqb (a b : seg) : bool :=
+  match a, b with SLit x, SLit y => String.eqb x y | SStar, SStar => true | SDstar, SDstar => true | _, _ => false end.
+Definition tmpl_eqb (a b : tmpl) : bool :=
+  list_eqb seg_eqb (t_pre a) (t_pre b) && String.eqb (t_key a) (t_key b) && Bool.eqb (t_short a) (t_short b)
+  && list_eqb seg_eqb (t_sub a) (t_sub b) && list_eqb seg_eqb (t_post a) (t_post b).
